@@ -28,12 +28,12 @@ Inductive expr :=
 | AOr (a b : expr)                  (* a | b *)
 | AOther (children : list expr).    (* call / attribute / tuple / …: evaluates the children, yields an opaque value *)
 
-Inductive err := EImport | ENotFound | EName | EType | ESyntax | EExport | EFuel.
+Inductive err := EImport | ENotFound | EName | EType | ESyntax | EExport | EFuel | EValue.
 Inductive res (A : Type) := Ok (a : A) | Fail (e : err).
 Arguments Ok {A} a. Arguments Fail {A} e.
 
 Definition err_code (e : err) : N :=
-  match e with EImport => 1 | ENotFound => 2 | EName => 3 | EType => 4 | ESyntax => 5 | EExport => 6 | EFuel => 7 end.
+  match e with EImport => 1 | ENotFound => 2 | EName => 3 | EType => 4 | ESyntax => 5 | EExport => 6 | EFuel => 7 | EValue => 8 end.
 
 Definition env := list (str * kind).   (* latest binding first *)
 
@@ -265,6 +265,19 @@ Section Exec.
     | None => dedup (filter is_public (map fst (ms_globals T)))
     end.
 
+  (* enum.Enum rejects member names of the form _x_ ("_sunder_ names are reserved"): ValueError at class creation *)
+  Definition s_Enum : str := [69;110;117;109].
+  Definition s_IntEnum : str := [73;110;116;69;110;117;109].
+  Definition is_enum_class (heads : list expr) : bool :=
+    existsb (fun h => match h with AName n => str_eqb n s_Enum || str_eqb n s_IntEnum | _ => false end) heads.
+  Definition is_sunder (n : str) : bool :=
+    match n, rev n with
+    | a :: b :: _ :: _, y :: x :: _ => (a =? underscore) && negb (b =? underscore) && (y =? underscore) && negb (x =? underscore)
+    | _, _ => false
+    end.
+  Definition sunder_member (items : list citem) : bool :=
+    existsb (fun it => match it with CAssign n _ => is_sunder n | _ => false end) items.
+
   Definition pure_step (vw : view) (ga : env * option (list str)) (s : stmt) : res (env * option (list str)) :=
     let g := fst ga in
     let al := snd ga in
@@ -284,7 +297,8 @@ Section Exec.
         match eval_all (lookup_in [] g) heads with
         | Fail e => Fail e
         | Ok _ => match exec_class_body g [] items with
-                  | Ok _ => Ok ((n, KClass) :: g, al)
+                  | Ok _ => if is_enum_class heads && sunder_member items then Fail EValue
+                            else Ok ((n, KClass) :: g, al)
                   | Fail e => Fail e
                   end
         end
@@ -480,10 +494,10 @@ Section Exec.
                                   | None => false
                                   end) (mod_edges m)
     end.
-  Definition c_acyclic : bool :=
-    let order := topo_order in
+  Definition c_acyclic_with (order : list modpath) : bool :=
     nodup_paths order && forallb (edges_decrease order) pkg
     && forallb (fun p => has_mod pkg p) order.
+  Definition c_acyclic : bool := c_acyclic_with topo_order.
 
   (* c_static: executing the bodies in topological order, each against the finished modules before it, succeeds
      (names bound, annotations evaluable, imported names present, __all__ bound) *)
@@ -508,8 +522,11 @@ Section Exec.
             end
         end
     end.
-  Definition canon : res sysmods := fold_left canon_step topo_order (Ok []).
-  Definition c_static : bool := match canon with Ok _ => true | Fail _ => false end.
+  Definition canon_with (order : list modpath) : res sysmods := fold_left canon_step order (Ok []).
+  Definition canon : res sysmods := canon_with topo_order.
+  Definition c_static_with (order : list modpath) : bool :=
+    match canon_with order with Ok _ => true | Fail _ => false end.
+  Definition c_static : bool := c_static_with topo_order.
 
   (* two syntactic conjuncts that name the known annotation defects (implied by c_static failing, kept separate
      so that a failure can be attributed):  a string literal as a direct operand of `|`;  a class field whose
@@ -544,6 +561,10 @@ Section Exec.
   Definition pkg_ok_conjuncts : list bool :=
     [c_parses; c_closed; c_acyclic; c_no_str_or; c_no_shadow; c_no_ancestor_names; c_paths; c_static].
   Definition pkg_ok : bool := forallb (fun b => b) pkg_ok_conjuncts.
+
+  (* the same condition w.r.t. ANY supplied order of the modules (pkg_ok computes one by depth-first search) *)
+  Definition pkg_ok_with (order : list modpath) : bool :=
+    c_parses && c_closed && c_acyclic_with order && c_no_ancestor_names && c_paths && c_static_with order.
 End Exec.
 
 Definition size (pkg : package) : nat := S (S (length pkg)).
